@@ -178,3 +178,69 @@ def gen_history(r: random.Random, profile: str = "mix") -> Dict[str, Any]:
     ops.append({"k": "tick"})
     return {"format": 1, "driver": "B", "runner_seed": r.randrange(2 ** 31), "config": cfg, "ops": ops,
             "knobs": {"storage_chunk": r.choice([None, None, 2, 3, 5])}, "taps": False}
+
+
+def gen_deep(r: random.Random, profile: str = "deep") -> Dict[str, Any]:
+    """long market-level histories: deep books (hundreds of resting orders), thousands of ops and order ids,
+    hundreds of clock steps (several storage chunks), long time-to-live, large volumes and prices."""
+    n_agents = r.randint(4, 20)
+    tick = r.choice([1.0, 0.5, 0.01, 0.1, 0.25])
+    p0 = float(r.choice([300, 1000, 50000, 1e7])) if r.random() < 0.5 else 300.0
+    p0 = float(round(p0 / tick) * tick)
+    cfg = base_config(1, n_agents, [tick], [p0])
+    cfg["SA"]["assetVolume"] = 10 ** 7
+    cfg["SA"]["cashAmount"] = 10 ** 12
+    n_ops = r.choice([600, 1200, 2500])
+    spread = r.choice([20, 60, 200])
+    bigvol = r.random() < 0.3
+    p_tick = r.choice([0.05, 0.15, 0.3])
+    p_cancel = r.choice([0.03, 0.1, 0.2])
+    p_sweep = r.choice([0.01, 0.03])
+    ttl_choices = r.choice([[None], [None, 50, 200], [20, 100, 300], [None, 5, 1000]])
+    continuous = r.random() < 0.8
+    base = round(p0 / tick)
+    ops: List[Dict[str, Any]] = []
+    outage = 0
+    for _ in range(n_ops):
+        u = r.random()
+        if outage > 0:
+            outage -= 1
+            if outage == 0:
+                ops.append({"k": "match_all"})
+        elif r.random() < 0.004:
+            outage = r.randint(20, 150)
+        cont = continuous and outage == 0
+        if u < p_tick:
+            ops.append({"k": "tick", "n": 1 if r.random() < 0.9 else r.randint(2, 40)})
+        elif u < p_tick + p_cancel:
+            ops.append({"k": "cancel", "m": 0, "ref": r.choice(["live", "live", "live", "any", "filled", "expired"]),
+                        "nth": r.randrange(100000), **({"cont": True} if cont else {})})
+        elif u < p_tick + p_cancel + p_sweep:
+            side = r.choice("bs")
+            op = {"k": "add", "a": r.randrange(n_agents), "m": 0, "side": side,
+                  "kind": "market" if r.random() < 0.4 else "limit", "vol": r.randint(20, 400) * (1000 if bigvol else 1)}
+            if op["kind"] == "limit":
+                op["px"] = float(max(tick, (base + (spread if side == "b" else -spread)) * tick))
+            if cont:
+                op["cont"] = True
+            ops.append(op)
+        else:
+            side = r.choice("bs")
+            lv = int(abs(r.gauss(0, spread / 2.0))) + (0 if r.random() < 0.1 else 1)
+            if r.random() < 0.07:
+                lv = -r.randint(0, 3)  # crossing
+            px = (base - lv) * tick if side == "b" else (base + lv) * tick
+            if r.random() < 0.1:
+                px += r.random() * tick
+            op = {"k": "add", "a": r.randrange(n_agents), "m": 0, "side": side, "kind": "limit",
+                  "px": float(max(tick, px)), "vol": r.randint(1, 9) * (r.choice([1, 1, 1000, 10 ** 6]) if bigvol else 1)}
+            ttl = r.choice(ttl_choices)
+            if ttl is not None:
+                op["ttl"] = ttl
+            if cont:
+                op["cont"] = True
+            ops.append(op)
+    ops.append({"k": "match_all"})
+    ops.append({"k": "tick"})
+    return {"format": 1, "driver": "B", "runner_seed": r.randrange(2 ** 31), "config": cfg, "ops": ops,
+            "knobs": {"storage_chunk": None}, "taps": False}
